@@ -735,7 +735,8 @@ def finish(prop: str, tier: str, base_seed: int, merged: dict, engine: Any, shri
             small, out1 = entry["record"], out0
         path = write_replay(prop, entry, small, out1, n)
         replay_paths.append(str(path))
-        print(json.dumps(out1.violation.as_dict(), default=repr)[:1500])
+        vd = out1.violation.as_dict()
+        print(json.dumps({"property": prop, "oracle": vd["oracle"], "sig": vd["sig"], "detail": json.dumps(vd["detail"], default=repr)[:1200]}))
         print(f"VIOLATION property={prop} replay={path}")
         exit_code = EXIT_VIOLATION
 
